@@ -57,9 +57,8 @@ def IN_APP_INCLUDE():
     user_defined = os.getenv('DEEP_IN_APP_INCLUDE', None)
     if user_defined is None:
         return []
-    if ',' in user_defined:
-        return user_defined.split(',')
-    return [user_defined]
+    # an empty item (an empty variable, a trailing comma) is not a prefix: it would match every file
+    return [item for item in user_defined.split(',') if item]
 
 
 # noinspection PyPep8Naming
@@ -72,10 +71,9 @@ def IN_APP_EXCLUDE():
     user_defined = os.getenv('DEEP_IN_APP_EXCLUDE', None)
     if user_defined is None:
         user_defined = []
-    elif ',' in user_defined:
-        user_defined = user_defined.split(',')
     else:
-        user_defined = [user_defined]
+        # an empty item (an empty variable, a trailing comma) is not a prefix: it would match, and exclude, every file
+        user_defined = [item for item in user_defined.split(',') if item]
 
     prefix = sys.exec_prefix
     user_defined.append(prefix)
